@@ -208,8 +208,8 @@ struct infilesformat {
  */
 struct Options {
     struct infilesformat infiles[30]; /* structure to hold the list of input file names. Limited to 30*/
-    char                 outfile[32]; /* output file name */
-    char                 palfile[32]; /* palette file name, if any */
+    char                 outfile[NAME_LEN]; /* output file name */
+    char                 palfile[NAME_LEN]; /* palette file name, if any */
     int                  fcount;      /* number of input files */
     int                  to_float;    /* float output is desired */
     int                  to_image;    /* image output is desired */
@@ -459,6 +459,8 @@ main(int argc, char *argv[])
     const char *err3 = "No output file given.\n";
     const char *err4 = "Program aborted.\n";
     const char *err5 = "Cannot allooacte memory.\n";
+    const char *err6 = "File name too long: %s.\n";
+    const char *err7 = "Too many input files.\n";
 
     if (NULL == (opt = (struct Options *)calloc(1, sizeof(struct Options)))) {
         fprintf(stderr, "%s", err5);
@@ -506,8 +508,18 @@ main(int argc, char *argv[])
 
         state = state_table[state][token];
 
+        /* the three states that copy a file name into a fixed field of the option record */
+        if ((state == 1 || state == 3 || state == 11) && strlen(argv[i]) >= NAME_LEN) {
+            fprintf(stderr, err6, argv[i]);
+            goto err;
+        }
+
         switch (state) {
             case 1: /* counting input files */
+                if (opt->fcount >= (int)(sizeof(opt->infiles) / sizeof(opt->infiles[0]))) {
+                    fprintf(stderr, "%s", err7);
+                    goto err;
+                }
                 (void)strcpy(opt->infiles[opt->fcount].filename, argv[i]);
                 opt->infiles[opt->fcount].outtype = NO_NE;
                 opt->fcount++;
